@@ -7,6 +7,7 @@ import (
 	"os"
 	"runtime"
 	"runtime/debug"
+	"runtime/pprof"
 	"sort"
 	"strings"
 	"time"
@@ -224,7 +225,13 @@ func cmdRun(args []string) int {
 	verifDir := fs.String("verif", "/verif", "verif dir")
 	repo := fs.String("repo", "/repo", "repo dir")
 	slog := fs.String("solver-log", "", "write solver input to file")
+	cpuprof := fs.String("cpuprofile", "", "write cpu profile")
 	fs.Parse(args)
+	if *cpuprof != "" {
+		f, _ := os.Create(*cpuprof)
+		pprof.StartCPUProfile(f)
+		defer pprof.StopCPUProfile()
+	}
 	repoDir = *repo
 	spec := &HarnessSpec{Pkg: *pkg, Harness: *harness}
 	if *files != "" {
